@@ -56,12 +56,22 @@ def classify_known(r, why):
     return None
 
 
-def replay_cases(ctx, cases, tag):
+def replay_cases(ctx, cases, tag, depth=0):
+    """runs the decoder on every case; if the harness PROCESS dies (abort / stack overflow: not catchable as a
+    panic) the batch is bisected until the offending input is isolated and recorded with outcome "abort"."""
     inp = os.path.join(ctx.work, f"{tag}.in.ndjson")
     outp = os.path.join(ctx.work, f"{tag}.out.ndjson")
     write_ndjson(inp, cases)
-    qev(["chunk-replay", inp, outp])
-    return read_ndjson(outp)
+    p = qev(["chunk-replay", inp, outp], check=False)
+    if p.returncode == 0:
+        return read_ndjson(outp)
+    if len(cases) == 1:
+        r = dict(cases[0]); r["got"] = []; r["outcome"] = "panic"; r["msg"] = f"decoder killed the process (exit {p.returncode}): {p.stderr[-200:]}"
+        return [r]
+    if depth > 40:
+        raise vlib.ToolError("chunk-replay keeps dying")
+    h = len(cases) // 2
+    return replay_cases(ctx, cases[:h], tag + "a", depth + 1) + replay_cases(ctx, cases[h:], tag + "b", depth + 1)
 
 
 def run(ctx):
